@@ -1911,9 +1911,17 @@ package spec
 
 //@ func verifLemmaSchemaOrArrayFixedPoint
 //@   property C07
-//@   requires len(v.Schemas) >= 0 && (v.Schema != nil ==> schemaFP(*v.Schema)) && (len(v.Schemas) > 0 ==> schemasFP(v.Schemas))
+//@   requires len(v.Schemas) >= 0 && (v.Schemas == nil ==> len(v.Schemas) == 0) && (v.Schema != nil ==> schemaFP(*v.Schema)) && (v.Schemas != nil ==> schemasFP(v.Schemas))
 //@   ensures  [C07] encoded-form-decodes @@ result0 != nil ==> result1 != nil
 //@   ensures  [C07] fixed-point @@ result0 != nil && result1 != nil ==> jv(result1) == jv(result0)
+
+// what SchemaOrArray.UnmarshalJSON produced from a text that is not null encodes as an array or an object, never as null
+// (the holder, Schema.Items, is a pointer member with omitempty: null would vanish on the next decode+encode)
+//@ func verifLemmaSchemaOrArrayNeverNull
+//@   property C07
+//@   requires jWF(data) && len(data) > 1
+//@   ensures  [C07] decoded-never-null @@ result != nil ==> jv(result) != jNull()
+//@   excluding decoded-never-null @@ jbyte0(data) == 123 || jbyte0(data) == 91
 
 // ---- ordering of schema properties (C06)
 // (C07: encoding a decoded schema sorts its properties with this relation, so it must not panic for any pair of positions)
